@@ -12,7 +12,8 @@ NAMES = ["Alpha", "Bravo", "Charlie", "Delta", "Echo", "Foxtrot", "Golf",
          "Oscar", "Papa", "Quebec", "Romeo", "Sierra", "Tango", "Uniform",
          "Victor", "Whisky", "Xray", "Yankee", "Zulu"]
 
-QUANTA = [F(1, 3), F(1, 8), F(5, 100), F(7, 1000), F(1), F(1, 100), F(1, 4)]
+QUANTA = [F(1, 3), F(1, 8), F(5, 100), F(7, 1000), F(1), F(1, 100), F(1, 4),
+          F(1), F(12)]
 
 
 # ------------------------------------------------------------------ amounts
@@ -202,7 +203,11 @@ class Decl:
                 if p.get("refname"):
                     kw["ref_unit_name"] = ["s", p["refname"]]
             if p.get("quantum") is not None:
-                kw["quantum"] = num(p["quantum"])
+                # an integral quantum is written as a plain int half of
+                # the time (decided by the value, so that replays agree)
+                q_ = F(p["quantum"])
+                kw["quantum"] = num(q_, "int" if q_.denominator == 1 and
+                                    len(p["name"]) % 2 == 0 else None)
             if k == "derived":
                 if p.get("form") == "ops":
                     e = None
@@ -477,6 +482,16 @@ def random_plan(rng, money=False, max_base=4, max_derived=4, max_units=4,
                     add(Decl("derive", t=tname, sym=sym,
                              units=[rng.choice([u.sym for u in w.units_of(n)])
                                     for n, _ in t.defn]))
+        elif t.base and rng.random() < 0.5:
+            # scaled units in a base type without reference unit (like a
+            # user's millikelvin): k * unit of the same type
+            mine = [u.sym for u in w.units_of(tname)]
+            for _ in range(rng.randint(1, 2)):
+                if not mine:
+                    break
+                add(Decl("scaled", t=tname, sym=newsym(tname),
+                         k=rng.choice([F(1, 1000), F(1000), F(3), F(1, 8)]),
+                         parent=rng.choice(mine), rmul=rng.random() < 0.3))
         elif not t.base:
             for _ in range(rng.randint(1, 3)):
                 sym = newsym(tname)
